@@ -568,6 +568,17 @@ PcExit ==
   /\ UNCHANGED <<born, base, nuuid, ids, dests, anyAdded, buffer, gf, reg, offered, call, ret, nfaults, nmsgs, dev, gh, hist>>
 
 \* the public call returns to the application
+\* A with-block (or context() block) of action a that was ENTERED in another context -- a generator suspended inside the block,
+\* advanced by another thread -- is left by context c (c closes the generator).  ContextVar.reset refuses the foreign token with
+\* ValueError before anything else happens: c's current action is untouched, a is not finished, nothing is logged.
+\* ("entering, leaving or finishing actions in one never changes current_action() in another", C05)
+InBlock(a) == \E c2 \in Ctx : \E i \in DOMAIN blocks[c2] : blocks[c2][i].act = a
+CanLeaveElsewhere(c, a) == Idle /\ born[c] /\ a \in DOMAIN acts /\ ~acts[a].fin /\ ~InBlock(a)
+LeaveElsewhere(c, a, kind) ==
+  /\ CanLeaveElsewhere(c, a) /\ kind \in {"with", "ctx"}
+  /\ Begin(c, "refused", [op |-> "LeaveElsewhere", c |-> c, a |-> a, kind |-> kind])
+  /\ UNCHANGED <<acts, cur, blocks, born, base, nuuid, ids, dests, anyAdded, buffer, gf, reg, offered, work, ret, nfaults, nmsgs, nodes, dev, gh>>
+
 Return ==
   /\ call.c # 0 /\ work = <<>>
   /\ ret' = call /\ call' = NoCall
@@ -606,6 +617,7 @@ Next ==
        \/ F("remote") /\ (SerializeId(c) \/ \E i \in DOMAIN ids : ContinueTask(c, i))
        \/ F("preserve") /\ (Preserve(c) \/ \E i \in DOMAIN ids : CallPreserved(c, i))
        \/ F("spawn") /\ \E c2 \in Ctx, k \in {"thread", "task"} : Spawn(c, c2, k)
+       \/ F("elsewhere") /\ Len(hist) < 2 * MaxMsgs /\ \E a \in DOMAIN acts, k \in {"with", "ctx"} : LeaveElsewhere(c, a, k)
        \/ F("dests") /\ (\/ \E S \in SUBSET Dest : AddDests(c, S)
                          \/ \E d \in Dest : RemoveDest(c, d)
                          \/ \E f \in {"g1", "g2"}, v \in 1..2 : (f = "g2" => v = 1) /\ (\A p \in gf : p[1] = f => p[2] < v) /\ AddGlobal(c, f, v))
